@@ -74,7 +74,7 @@ func keyAdd(ctx *cmdContext, key string, delta int64) (output respValue, err err
 func fnAppend(ctx *cmdContext, args map[string]any) (output respValue, err error) {
 	value := args["value"].(string)
 
-	result, hasError := setWorker(ctx.cmdName, args, ctx.dsc, true, true)
+	result, hasError := setWorker(ctx.cmdToken, args, ctx.dsc, true, true)
 	if hasError {
 		output = result
 		return
@@ -214,7 +214,7 @@ func fnGetRange(ctx *cmdContext, args map[string]any) (output respValue, err err
 }
 
 func fnGetSet(ctx *cmdContext, args map[string]any) (output respValue, err error) {
-	output, _ = setWorker(ctx.cmdName, args, ctx.dsc, true, false)
+	output, _ = setWorker(ctx.cmdToken, args, ctx.dsc, true, false)
 	return
 }
 
@@ -317,7 +317,7 @@ func fnMset(ctx *cmdContext, args map[string]any) (output respValue, err error) 
 	keyValuePairs, _ := args["data"].([]any)
 
 	options := bitflags(0)
-	if ctx.cmdName == "msetnx" {
+	if ctx.cmdToken == "msetnx" {
 		options = SET_NOT_EXIST
 	}
 
@@ -335,7 +335,7 @@ func fnMset(ctx *cmdContext, args map[string]any) (output respValue, err error) 
 }
 
 func fnSet(ctx *cmdContext, args map[string]any) (output respValue, err error) {
-	output, _ = setWorker(ctx.cmdName, args, ctx.dsc, false, false)
+	output, _ = setWorker(ctx.cmdToken, args, ctx.dsc, false, false)
 	return
 }
 
